@@ -413,23 +413,81 @@ func ruleALBuf(c *Ctx) {
 func ruleALBlock(c *Ctx) {
 	c.Rule("AL-BLOCK", "the decompressed block (a buffer the decompressor reuses) is only ever installed as the read buffer", 1)
 	P := c.P
-	s := findReadFile(P)
-	if !c.Anchor(s.decompress != nil && s.reset != nil, "decompress and ReadBuf.Reset in ReadFile") {
-		return
-	}
-	un := extractOf(s.decompress, 0)
-	ok := un != nil
-	if ok {
-		for _, r := range referrersOf(un) {
-			if _, isDbg := r.(*ssa.DebugRef); isDbg {
-				continue
-			}
-			if r != ssa.Instruction(s.reset) {
-				ok = false
+	// every call of the compression interface's decompress in the module, wherever the container reader keeps it
+	var calls []*ssa.Call
+	for _, fn := range P.ModuleFuncs() {
+		for _, cs := range callsIn(fn) {
+			if cs.Iface != nil && cs.Iface.Name() == "decompress" && cs.Value() != nil {
+				calls = append(calls, cs.Value())
 			}
 		}
 	}
-	c.Check(ok, fnKey(s.fn)+"/uncompressed-uses", P.pos(s.decompress.Pos()), "the decompressor's result is used only as the argument of ReadBuf.Reset", "the decompressed block is used other than as the read buffer: it is overwritten when the next block is decompressed")
+	if !c.Anchor(len(calls) > 0, "a call of the compression interface's decompress") {
+		return
+	}
+	// what the result may be used for: the argument of ReadBuf.Reset, a store to the read buffer's buf field,
+	// or being handed back to a caller that does one of these
+	var usesOK func(v ssa.Value, fn *ssa.Function, d int) string
+	usesOK = func(v ssa.Value, fn *ssa.Function, d int) string {
+		if v == nil {
+			return "the result is not used"
+		}
+		for _, r := range referrersOf(v) {
+			switch x := r.(type) {
+			case *ssa.DebugRef:
+			case *ssa.Call:
+				g := x.Call.StaticCallee()
+				if g != nil && qualNameShort(g) == "(*ReadBuf).Reset" && len(x.Call.Args) == 2 && x.Call.Args[1] == v {
+					continue
+				}
+				return "it is handed to " + x.Call.String()
+			case *ssa.Store:
+				if fa, ok := x.Addr.(*ssa.FieldAddr); ok && x.Val == v && typeKey(derefType(fa.X.Type())) == "avro.ReadBuf" && fieldName(fa.X.Type(), fa.Field) == rfAnchors(P).fBuf {
+					continue
+				}
+				return "it is stored by " + x.String()
+			case *ssa.Phi:
+				if why := usesOK(x, fn, d); why != "" {
+					return why
+				}
+			case *ssa.Return:
+				if d >= 2 {
+					return "it is handed back through more than two helpers"
+				}
+				idx := -1
+				for i, rv := range x.Results {
+					if rv == v {
+						idx = i
+					}
+				}
+				for _, site := range callersOf(P, fn) {
+					call, isCall := site.(*ssa.Call)
+					if !isCall {
+						return "a helper handing it back is called by go or defer"
+					}
+					var got ssa.Value = call
+					if fn.Signature.Results().Len() > 1 {
+						got = extractOf(call, idx)
+						if got == nil {
+							continue
+						}
+					}
+					if why := usesOK(got, call.Parent(), d+1); why != "" {
+						return why
+					}
+				}
+			default:
+				return "it is used by " + r.String()
+			}
+		}
+		return ""
+	}
+	for i, call := range calls {
+		fn := call.Parent()
+		var un ssa.Value = extractOf(call, 0)
+		why := usesOK(un, fn, 0)
+		c.Check(why == "", fmt.Sprintf("%s/uncompressed-uses#%d", fnKey(fn), i+1), P.pos(call.Pos()), "the decompressor's result is used only as the read buffer (ReadBuf.Reset, or a store to its buf field)", "the decompressed block is used other than as the read buffer ("+why+"): it is overwritten when the next block is decompressed")
+	}
 }
 
 func ruleALStr(c *Ctx) {
